@@ -120,6 +120,23 @@ def addr_taken(node, out, in_call_pos=False):
         addr_taken(c, out, False)
 
 
+def record_writes(node, typename, out):
+    """fields of the record `typename` assigned (=, op=, ++, --) below `node`"""
+    k = node.get("kind")
+    tgt = None
+    if k in ("BinaryOperator", "CompoundAssignOperator") and (k == "CompoundAssignOperator" or node.get("opcode") == "=") and node.get("inner"):
+        tgt = strip(node["inner"][0])
+    elif k == "UnaryOperator" and node.get("opcode") in ("++", "--") and node.get("inner"):
+        tgt = strip(node["inner"][0])
+    if tgt is not None and tgt.get("kind") == "MemberExpr" and tgt.get("inner"):
+        bt = tgt["inner"][0].get("type", {}).get("qualType", "")
+        if typename in bt:
+            out.add(tgt.get("name", "?"))
+    for c in node.get("inner", []) or []:
+        if isinstance(c, dict):
+            record_writes(c, typename, out)
+
+
 def skel_term(fnnode):
     f = LifeFn(fnnode)
     return len(f.params), f.stmts(f.body)
@@ -253,6 +270,14 @@ def tr_cfglife(run):
             callees |= set(cg_fns[fn][1])
     neutral = sorted(c for c in callees if c not in ACQ and c not in REL and c not in touch)
     out.append("Definition cfg_neutral : list string :=\n  [%s].\n" % "; ".join(q(c) for c in neutral))
+    # who writes the record at all (whole library, raw AST)
+    writers = []
+    for fn in sorted(cg_fns):
+        w = set()
+        record_writes(cg_fns[fn][3], "snoopy_configuration_t", w)
+        if w:
+            writers.append((fn, sorted(w)))
+    out.append("Definition cfg_writers : list (string * list string) :=\n  [%s].\n" % ";\n   ".join("(%s, [%s])" % (q(f), "; ".join(q(x) for x in w)) for f, w in writers))
     src = run.src("src/configuration.c")
     m = re.search(r"snoopy_configuration_t\s+snoopy_configuration_data\s*=\s*\{(.*?)\}\s*;", src, re.S)
     static_uninit = bool(m) and not re.search(r"\.initialized\s*=\s*(?!\s|SNOOPY_FALSE\b|0\b)", m.group(1))
@@ -264,7 +289,7 @@ def tr_cfglife(run):
                "g_defaults := sk_cfg_defaults; g_uninit := sk_cfg_uninit; g_get_ts := sk_cfg_get_ts; g_get_nts := sk_cfg_get_nts; g_load := sk_cfg_load; "
                "g_callback := sk_cfg_callback; g_tsrm_new := sk_tsrm_new; g_tsrm_ctor := sk_tsrm_ctor; g_tsrm_dtor := sk_tsrm_dtor; "
                "g_init_ts := sk_life_init_ts; g_cleanup_ts := sk_life_cleanup_ts; g_init_nts := sk_life_init_nts; g_cleanup_nts := sk_life_cleanup_nts; "
-               "g_parsers := cfg_parsers; g_neutral := cfg_neutral; g_static_uninit := cfg_static_uninit |}.\n")
+               "g_parsers := cfg_parsers; g_neutral := cfg_neutral; g_static_uninit := cfg_static_uninit; g_writers := cfg_writers |}.\n")
     run.write_gen("Gen_CfgLife.v", "\n".join(out))
     for n in notes:
         run.notes.append("tr_cfglife: " + n)
